@@ -166,6 +166,16 @@ pub fn run_case(lines: &[Vec<String>], o: &mut Out) {
         res!(48, 0, g, community::partitions::modularity(&*g, &a2, true, Some(1.5)));
         let foreign: Vec<HashSet<i64>> = vec![names.iter().cloned().chain([ABSENT]).collect()];
         res!(49, 2, g, community::partitions::modularity(&*g, &foreign, false, None));
+        // an absent name SWAPPED IN for a node (the number of names still equals the number of nodes)
+        if let Some(first) = names.first() {
+            let swapped: Vec<HashSet<i64>> =
+                vec![names.iter().cloned().filter(|x| x != first).chain([ABSENT]).collect()];
+            let sw2 = swapped.clone();
+            let sw3 = swapped.clone();
+            plain!(102, 0, g, community::partitions::is_partition(&*g, &sw2));
+            res!(101, 2, g, community::partitions::modularity(&*g, &swapped, false, None));
+            res!(101, 2, g, community::partitions::modularity(&*g, &sw3, true, Some(0.5)));
+        }
     }
     res!(50, 0, g, graphrs::readwrite::graphml::write_graphml_string(&*g).map_err(|_| graphrs::Error {
         kind: graphrs::ErrorKind::ReadError,
